@@ -150,7 +150,12 @@ VbftVariants(n, T) ==
              Row("bad-first", b, Upd(b, 1, 0)), Row("bad-last", b, Upd(b, k, 0)),
              Row("few-sigs", b, SubSeq(b, 1, k - 1)), Row("all-bad", b, [i \in 1..k |-> 0]),
              Row("foreign-replaces-first", Upd(b, 1, O1), Upd(b, 1, O1)),
-             Row("bad-then-good", b, <<0>> \o b)}
+             Row("bad-then-good", b, <<0>> \o b),
+             \* genuine validators listed first but not signing, outsiders listed behind them and signing: a membership
+             \* test that looks only at a prefix of the key list, followed by a multi-signature test over the whole list
+             Row("idle-members-outsiders-sign", b \o <<O1, O2>>, <<O1, O2>>),
+             Row("idle-members-one-outsider-signs", b \o <<O1>>, <<O1>>),
+             Row("outsiders-then-idle-members", <<O1, O2>> \o b, <<O1, O2>>)}
             \cup {Row("unlisted-member-sig", b, Upd(b, 1, x)) : x \in (IF (1..n) \ T = {} THEN {} ELSE {Min((1..n) \ T)})}
            ELSE {Row("foreign-only-two", <<O1, O2>>, <<O1, O2>>)})
 
